@@ -236,7 +236,7 @@ class GroundedPrecondition:
         self.logger.debug("We assume that universal preconditions are not nested.")
         extended_parameter_map = {**self._parameter_map}
         for obj_name, obj in problem_objects.items():
-            if obj.type.name != condition.quantified_type.name:
+            if not obj.type.is_sub_type(condition.quantified_type):
                 continue
 
             extended_parameter_map[condition.quantified_parameter] = obj_name
